@@ -31,7 +31,7 @@ func runC02P(c *Ctx, x *c02pubs) {
 			roots = append(roots, f)
 		}
 	}
-	scope := c.reach(roots...)
+	scope := c.c02reach(roots...)
 	// stay inside the repository
 	for f := range scope {
 		if f.Pkg == nil && f.Parent() == nil {
@@ -43,7 +43,7 @@ func runC02P(c *Ctx, x *c02pubs) {
 
 	// P3: divisions in scope
 	nDiv := 0
-	for _, f := range c.AllFns {
+	for _, f := range c02fns(c) {
 		if !scope[f] {
 			continue
 		}
@@ -61,7 +61,7 @@ func runC02P(c *Ctx, x *c02pubs) {
 			}
 			nDiv++
 			ok2, why := divisorNonZero(b)
-			if !ok2 && x.nonZeroAt(b.Y, b.Block(), 0) {
+			if !ok2 && (x.nonZeroAt(b.Y, b.Block(), 0) || x.symHolds(b.Y, b.Block(), c02acceptNonZero)) {
 				ok2 = true
 			}
 			c.check("C02.P3", fnKey(f)+"|integer division by "+shortPath(b.Y), b.Pos(), ok2, "a route configuration must not be able to crash the builder or the lookup: "+why)
@@ -70,7 +70,7 @@ func runC02P(c *Ctx, x *c02pubs) {
 	c.atLeast("C02.P3", "integer divisions in the table builder / lookup path", nDiv, 1)
 
 	// P4: non-finite weights are rejected where they are parsed; computed allocation sizes are guarded
-	build := c.reach(builders...)
+	build := c.c02reach(builders...)
 	runC02FiniteWeight(c, build)
 	runC02Alloc(c, x, build)
 
@@ -85,7 +85,7 @@ func runC02P(c *Ctx, x *c02pubs) {
 		}
 	}
 	nP7 := nDiv
-	for f := range c.reach(lookups...) {
+	for f := range c.c02reach(lookups...) {
 		eachInstr(f, func(i ssa.Instruction) {
 			if cc := callCommon(i); cc != nil {
 				name := calleeName(cc)
@@ -116,15 +116,19 @@ func runC02P(c *Ctx, x *c02pubs) {
 				if !ok || u.Op != token.MUL {
 					return
 				}
-				p, isParam := u.X.(*ssa.Parameter)
-				if !isParam || !types.Identical(p.Type(), pt) {
+				if !types.Identical(u.X.Type(), pt) {
 					return
 				}
 				if _, isPtr := pt.Underlying().(*types.Pointer); !isPtr {
 					return
 				}
+				// the pointer is a parameter of the function - or, inside a function literal (an iterator over the
+				// list, a callback), the captured parameter of the enclosing function
+				if p, _, _ := c02paramOrigin(u.X); p == nil {
+					return
+				}
 				nd++
-				c.check("C02.P8", fnKey(f)+"|dereference of the definition list", u.Pos(), x.nonNilAt(p, u.Block(), 0),
+				c.check("C02.P8", fnKey(f)+"|dereference of the definition list", u.Pos(), x.nonNilOrigin(u.X, u.Block()),
 					"the custom backend decodes JSON into *[]RouteDef; the JSON text null leaves the pointer nil without an error, and dereferencing it panics in a goroutine without recover (process exit)")
 			})
 		}
@@ -233,7 +237,7 @@ func c02regexpGroups(c *Ctx, re ssa.Value) (int, string, bool) {
 			if f := g.Pkg.Func("init"); f != nil {
 				inits = append(inits, f)
 			}
-			for _, f := range c.AllFns {
+			for _, f := range c02fns(c) {
 				if f.Pkg == g.Pkg && isInitFn(f) {
 					inits = append(inits, f)
 				}
@@ -263,7 +267,7 @@ func c02regexpGroups(c *Ctx, re ssa.Value) (int, string, bool) {
 // regexp may be a local constant pattern.
 func c02PartialOps(c *Ctx, rule string, scope map[*ssa.Function]bool) int {
 	n := 0
-	for _, f := range c.AllFns {
+	for _, f := range c02fns(c) {
 		if !scope[f] {
 			continue
 		}
@@ -460,7 +464,7 @@ func (x *c02pubs) liftParam(v ssa.Value, depth int, ok func(arg ssa.Value, at *s
 	}
 	fn := p.Parent()
 	k := c02paramIndex(p)
-	sites := gSites[fn]
+	sites := c02sites(fn)
 	if k < 0 || len(sites) == 0 || !x.onlyStatic(fn) {
 		return false
 	}
@@ -500,6 +504,9 @@ func (x *c02pubs) nonNegAt(v ssa.Value, at *ssa.BasicBlock, depth int, seen map[
 	if c02signFact(v, at, false) {
 		return true
 	}
+	if depth == 0 && x.symHolds(v, at, c02acceptNonNeg) {
+		return true
+	}
 	return x.liftParam(v, depth, func(arg ssa.Value, blk *ssa.BasicBlock) bool {
 		return x.nonNegAt(arg, blk, depth+1, map[ssa.Value]bool{})
 	})
@@ -509,7 +516,7 @@ func (x *c02pubs) nonNegAt(v ssa.Value, at *ssa.BasicBlock, depth int, seen map[
 // dominated by a test that the size is not negative: slot counts come from configured weights.
 func runC02Alloc(c *Ctx, x *c02pubs, build map[*ssa.Function]bool) {
 	n := 0
-	for _, f := range c.AllFns {
+	for _, f := range c02fns(c) {
 		if !build[f] || rootPkg(f) != c.spkg("route") {
 			continue
 		}
@@ -538,7 +545,7 @@ func runC02Alloc(c *Ctx, x *c02pubs, build map[*ssa.Function]bool) {
 		// a ring built by append has no computed allocation to protect; the rule is not vacuous as long as the region
 		// it searched is the table builder
 		nf := 0
-		for _, f := range c.AllFns {
+		for _, f := range c02fns(c) {
 			if build[f] && rootPkg(f) == c.spkg("route") {
 				nf++
 			}
@@ -713,7 +720,7 @@ func c02factsOnEdge(p, q *ssa.BasicBlock) []Fact {
 // parsing function (is returned, or stored into a structure) only under tests that exclude NaN and the infinities.
 func runC02FiniteWeight(c *Ctx, build map[*ssa.Function]bool) {
 	n := 0
-	for _, f := range c.AllFns {
+	for _, f := range c02fns(c) {
 		if !build[f] || rootPkg(f) != c.spkg("route") {
 			continue
 		}
